@@ -390,10 +390,11 @@ class C11(Monitor):
         for name, src, path in BASE_SOURCES:
             yield {"k": "hdrflags", "s": "HF", "base": name}
             yield {"k": "hdrcounts", "s": "HC", "base": name}
+            yield {"k": "hdrnames", "s": "HN", "base": name}
 
     def predicted(self):
         n = 1 << len(K)
-        tot = (n + CHUNK - 1) // CHUNK + len(UNKNOWN) + 2 * len(BASE_SOURCES)
+        tot = (n + CHUNK - 1) // CHUNK + len(UNKNOWN) + 3 * len(BASE_SOURCES)
         if self.tier == "thorough":
             tot += len(UNKNOWN) * ((n + CHUNK * 16 - 1) // (CHUNK * 16))
         return tot
@@ -410,6 +411,8 @@ class C11(Monitor):
             self.hdr_counts(case, stats)
         elif k == "word":
             self.run_words(case, stats)
+        elif k == "hdrnames":
+            self.hdr_names(case, stats)
         if k != "flagwords":
             stats.sample(case["s"], case, per=1)
         elif case["lo"] == 0:
@@ -556,6 +559,39 @@ class C11(Monitor):
                 continue
             stats.nontrivial.add(digest64(("hf", case["base"], x)))
             self.judge(dict(case, xor=x), alt, stats, "%s with co_flags 0x%x (compiler: 0x%x)" % (case["base"], fl, base.co_flags))
+
+    def hdr_names(self, case, stats):
+        """Unusual but legal strings in the name-carrying header fields: each variable
+        name (parameters, *args, **kwargs, locals), free/cell variable, co_name and
+        co_filename replaced in turn by '', a non-identifier and a lone surrogate."""
+        base = base_code(case["base"])
+        only = case.get("alt")
+        alts = []
+        for attr in ("co_varnames", "co_cellvars", "co_freevars", "co_names"):
+            t = getattr(base, attr)
+            for i in range(len(t)):
+                for new in ("", "not an identifier", "\udc80"):
+                    if new in t:
+                        continue
+                    alts.append([attr, i, new])
+        for attr in ("co_name", "co_filename"):
+            for new in ("", "\udc80"):
+                alts.append([attr, None, new])
+        for attr, i, new in alts:
+            if only is not None and [attr, i, new] != only:
+                continue
+            if i is None:
+                kw = {attr: new}
+            else:
+                t = getattr(base, attr)
+                kw = {attr: t[:i] + (new,) + t[i + 1 :]}
+            try:
+                alt = ref.code_replace(base, **kw)
+            except Exception:
+                stats.outcomes["CodeType-rejects"] += 1
+                continue
+            stats.nontrivial.add(digest64(("hn", case["base"], attr, i, new)))
+            self.judge(dict(case, alt=[attr, i, new]), alt, stats, "%s with %s[%s] = %r" % (case["base"], attr, i, new))
 
     def hdr_counts(self, case, stats):
         base = base_code(case["base"])
